@@ -421,10 +421,10 @@ func c03Corpus() []string {
 			out = append(out, s)
 		}
 	}
-	files, _ := filepath.Glob("/repo/*_test.go")
-	more, _ := filepath.Glob("/repo/*/*_test.go")
+	files, _ := filepath.Glob(core.RepoDir() + "/*_test.go")
+	more, _ := filepath.Glob(core.RepoDir() + "/*/*_test.go")
 	files = append(files, more...)
-	more, _ = filepath.Glob("/repo/helpers/*/*_test.go")
+	more, _ = filepath.Glob(core.RepoDir() + "/helpers/*/*_test.go")
 	files = append(files, more...)
 	for _, f := range files {
 		src, err := os.ReadFile(f)
